@@ -170,18 +170,9 @@ assert_eq!(Fix::from_num(7.5).div_euclid(Fix::from_num(2)), Fix::from_num(3));
 ";
                 #[inline]
                 pub fn div_euclid(self, rhs: $Fixed<Frac>) -> $Fixed<Frac> {
-                    let q = (self / rhs).round_to_zero();
-                    if_signed! {
-                        $Signedness;
-                        if (self % rhs).is_negative() {
-                            return if rhs.is_positive() {
-                                q - Self::from_num(1)
-                            } else {
-                                q + Self::from_num(1)
-                            };
-                        }
-                    }
-                    q
+                    let (ans, overflow) = self.overflowing_div_euclid(rhs);
+                    debug_assert!(!overflow, "overflow");
+                    ans
                 }
             }
 
@@ -221,18 +212,9 @@ assert_eq!(Fix::from_num(7.5).div_euclid_int(2), Fix::from_num(3));
 ";
                 #[inline]
                 pub fn div_euclid_int(self, rhs: $Inner) -> $Fixed<Frac> {
-                    let q = (self / rhs).round_to_zero();
-                    if_signed! {
-                        $Signedness;
-                        if (self % rhs).is_negative() {
-                            return if rhs.is_positive() {
-                                q - Self::from_num(1)
-                            } else {
-                                q + Self::from_num(1)
-                            };
-                        }
-                    }
-                    q
+                    let (ans, overflow) = self.overflowing_div_euclid_int(rhs);
+                    debug_assert!(!overflow, "overflow");
+                    ans
                 }
             }
 
@@ -339,18 +321,13 @@ assert_eq!(Fix::max_value().checked_div_euclid(Fix::from_num(0.25)), None);
 ";
                 #[inline]
                 pub fn checked_div_euclid(self, rhs: $Fixed<Frac>) -> Option<$Fixed<Frac>> {
-                    let q = self.checked_div(rhs)?.round_to_zero();
-                    if_signed! {
-                        $Signedness;
-                        if (self % rhs).is_negative() {
-                            return if rhs.is_positive() {
-                                q.checked_add(Self::checked_from_num(-1)?)
-                            } else {
-                                q.checked_add(Self::checked_from_num(1)?)
-                            };
-                        }
+                    if rhs.to_bits() == 0 {
+                        return None;
                     }
-                    Some(q)
+                    match self.overflowing_div_euclid(rhs) {
+                        (ans, false) => Some(ans),
+                        (_, true) => None,
+                    }
                 }
             }
 
@@ -427,18 +404,13 @@ assert_eq!(Fix::from_num(7.5).checked_div_euclid_int(0), None);
 ";
                 #[inline]
                 pub fn checked_div_euclid_int(self, rhs: $Inner) -> Option<$Fixed<Frac>> {
-                    let q = self.checked_div_int(rhs)?.round_to_zero();
-                    if_signed! {
-                        $Signedness;
-                        if (self % rhs).is_negative() {
-                            return if rhs.is_positive() {
-                                q.checked_add(Self::checked_from_num(-1)?)
-                            } else {
-                                q.checked_add(Self::checked_from_num(1)?)
-                            };
-                        }
+                    if rhs == 0 {
+                        return None;
                     }
-                    Some(q)
+                    match self.overflowing_div_euclid_int(rhs) {
+                        (ans, false) => Some(ans),
+                        (_, true) => None,
+                    }
                 }
             }
 
@@ -660,7 +632,8 @@ Panics if the divisor is zero.
 use substrate_fixed::{types::extra::U4, ", $s_fixed, "};
 type Fix = ", $s_fixed, "<U4>;
 assert_eq!(Fix::from_num(7.5).wrapping_div_euclid(Fix::from_num(2)), Fix::from_num(3));
-let wrapped = Fix::max_value().wrapping_mul_int(4).round_to_zero();
+// the exact quotient is the integer max_value().to_bits() >> 2, which does not fit
+let wrapped = Fix::wrapping_from_num(Fix::max_value().to_bits() >> 2);
 assert_eq!(Fix::max_value().wrapping_div_euclid(Fix::from_num(0.25)), wrapped);
 ```
 ";
@@ -824,7 +797,8 @@ use substrate_fixed::{types::extra::U4, ", $s_fixed, "};
 type Fix = ", $s_fixed, "<U4>;
 let check = Fix::from_num(3);
 assert_eq!(Fix::from_num(7.5).overflowing_div_euclid(Fix::from_num(2)), (check, false));
-let wrapped = Fix::max_value().wrapping_mul_int(4).round_to_zero();
+// the exact quotient is the integer max_value().to_bits() >> 2, which does not fit
+let wrapped = Fix::wrapping_from_num(Fix::max_value().to_bits() >> 2);
 assert_eq!(Fix::max_value().overflowing_div_euclid(Fix::from_num(0.25)), (wrapped, true));
 ```
 
@@ -833,28 +807,11 @@ assert_eq!(Fix::max_value().overflowing_div_euclid(Fix::from_num(0.25)), (wrappe
 ";
                 #[inline]
                 pub fn overflowing_div_euclid(self, rhs: $Fixed<Frac>) -> ($Fixed<Frac>, bool) {
-                    let (mut q, overflow) = self.overflowing_div(rhs);
-                    q = q.round_to_zero();
-                    if_signed! {
-                        $Signedness;
-                        if (self % rhs).is_negative() {
-                            let (q, overflow2) = if rhs.is_positive() {
-                                let minus_one = match Self::checked_from_num(-1) {
-                                    None => return (q, true),
-                                    Some(s) => s,
-                                };
-                                q.overflowing_add(minus_one)
-                            } else {
-                                let one = match Self::checked_from_num(1) {
-                                    None => return (q, true),
-                                    Some(s) => s,
-                                };
-                                q.overflowing_add(one)
-                            };
-                            return (q, overflow | overflow2);
-                        }
-                    }
-                    (q, overflow)
+                    // The Euclidean quotient is an integer: it is the Euclidean
+                    // quotient of the bits, which only overflows for MIN / -1.
+                    let (q, overflow) = self.to_bits().overflowing_div_euclid(rhs.to_bits());
+                    let (ans, overflow2) = Self::overflowing_from_num(q);
+                    (ans, overflow | overflow2)
                 }
             }
 
@@ -896,28 +853,19 @@ assert_eq!(Fix::min_value().overflowing_div_euclid_int(-1), (wrapped, true));
 ";
                 #[inline]
                 pub fn overflowing_div_euclid_int(self, rhs: $Inner) -> ($Fixed<Frac>, bool) {
-                    let (mut q, overflow) = self.overflowing_div_int(rhs);
-                    q = q.round_to_zero();
-                    if_signed! {
-                        $Signedness;
-                        if (self % rhs).is_negative() {
-                            let (q, overflow2) = if rhs.is_positive() {
-                                let minus_one = match Self::checked_from_num(-1) {
-                                    None => return (q, true),
-                                    Some(s) => s,
-                                };
-                                q.overflowing_add(minus_one)
-                            } else {
-                                let one = match Self::checked_from_num(1) {
-                                    None => return (q, true),
-                                    Some(s) => s,
-                                };
-                                q.overflowing_add(one)
-                            };
-                            return (q, overflow | overflow2);
-                        }
-                    }
-                    (q, overflow)
+                    // floor(self) is an integer with the same Euclidean quotient by rhs.
+                    let int = if Self::INT_NBITS == 0 {
+                        if_signed_unsigned!(
+                            $Signedness,
+                            if self.to_bits() < 0 { -1 } else { 0 },
+                            0,
+                        )
+                    } else {
+                        self.to_bits() >> Self::FRAC_NBITS
+                    };
+                    let (q, overflow) = int.overflowing_div_euclid(rhs);
+                    let (ans, overflow2) = Self::overflowing_from_num(q);
+                    (ans, overflow | overflow2)
                 }
             }
 
